@@ -347,7 +347,7 @@ def run(ctx):
     custom_objects.enable(curtain=True)  # user-defined object types join the generators' pool (flags, not types, must decide)
     fns = FnCache()
     ctx.extra['exhaustive'] = True
-    with reach(ctx, [visibility_fs.partially_occluded, visibility_fs._partially_occluded_make_visible, visibility_fs.raytracing,
+    with reach(ctx, [visibility_fs.partially_occluded, *[f for f in [getattr(visibility_fs, '_partially_occluded_make_visible', None)] if f is not None], visibility_fs.raytracing,
                      visibility_fs.stochastic_raytracing, observation_fs.from_visibility]):
         shapes = [(3, 3, 0), (4, 3, 0), (3, 5, 0 if ctx.thorough else 1200)]
         patterns(ctx, shapes, fns)
